@@ -570,6 +570,13 @@ def locate(fn, loc):
         # ("has_call", callee_suffix, min_count): does the function call `...callee_suffix(...)` at least min_count times?
         hits = [n for n in ast.walk(fn) if isinstance(n, ast.Call) and ast.unparse(n.func).endswith(loc[1])]
         return ast.copy_location(ast.Constant(len(hits) >= loc[2]), fn)
+    if kind == "call_before":
+        # ("call_before", callee_a_suffix, callee_b_suffix): both calls occur and the first `a` precedes the first `b` in the source
+        def first(suffix):
+            hits = [n for n in ast.walk(fn) if isinstance(n, ast.Call) and ast.unparse(n.func).endswith(suffix)]
+            return min(((n.lineno, n.col_offset) for n in hits), default=None)
+        a, b = first(loc[1]), first(loc[2])
+        return ast.copy_location(ast.Constant(a is not None and b is not None and a < b), fn)
     if kind == "except_catches":
         # ("except_catches", name): does some `except` clause of the function name this exception class?
         hits = []
